@@ -477,6 +477,10 @@ impl<T: Sync + Send + 'static> Nucleo<T> {
                 verif::yield_point("run.done", 0);
             })
         }
+        #[cfg(nucleo_verif)]
+        if running {
+            verif::yield_point("tick.after_spawn", 0);
+        }
         Status { changed, running }
     }
 }
